@@ -253,6 +253,32 @@ func runC08(in sx.SX) (sx.SX, string) {
 	if f != nil && !strings.EqualFold(f.Name(), name) {
 		return sx.L(sx.I(-998)), "FindByName(" + name + ") after removing other functions returned the function " + f.Name()
 	}
+	// a large collection (the defaults and 20 functions of the caller): lookup, removal of other functions by name, lookup again
+	big := functions.NewDefaultFunctionCollection()
+	for i := 0; i < 20; i++ {
+		k := i
+		big.Add(functions.NewDelegatedFunction(fmt.Sprintf("zz_u%d", i), func(ps []*variants.Variant, ops variants.IVariantOperations) (*variants.Variant, error) {
+			return variants.VariantFromInteger(-1000 - k), nil
+		}))
+	}
+	for step := 0; step < 3; step++ {
+		g := big.FindByName(name)
+		if (g == nil) != (f == nil) || (g != nil && !strings.EqualFold(g.Name(), name)) {
+			got := "nothing"
+			if g != nil {
+				got = "the function " + g.Name()
+			}
+			return sx.L(sx.I(-998)), fmt.Sprintf("in a collection of %d functions, after %d removals by name, FindByName(%s) returned %s", big.Length(), step, name, got)
+		}
+		if u := big.FindByName("zz_u17"); u == nil || u.Name() != "zz_u17" {
+			return sx.L(sx.I(-998)), fmt.Sprintf("in a collection of %d functions, after %d removals by name, the caller's function zz_u17 is not found under its name", big.Length(), step)
+		}
+		for _, gone := range [][]string{{"zz_u3", "Ticks"}, {"zz_u0", "Array"}, {}}[step] {
+			if !strings.EqualFold(gone, name) {
+				big.RemoveByName(gone)
+			}
+		}
+	}
 	if coll.FindByName("zz_user") != nil {
 		return sx.L(sx.I(-998)), "a function added to one default collection shows up in a new default collection"
 	}
@@ -346,6 +372,14 @@ func runC08(in sx.SX) (sx.SX, string) {
 		if e := calc.SetExpression(name + "(" + strings.Join(ps, ",") + ")"); e != nil {
 			fail = "the call expression was rejected: " + e.Error()
 		} else {
+			// the same calculator object first evaluates against the caller's own functions, then against the defaults
+			own := functions.NewFunctionCollection()
+			own.Add(functions.NewDelegatedFunction(strings.ToLower(name), func(ps []*variants.Variant, ops variants.IVariantOperations) (*variants.Variant, error) {
+				return variants.VariantFromInteger(-999), nil
+			}))
+			if r0, e0 := calc.EvaluateUsingVariablesAndFunctions(vars, own); e0 != nil || r0 == nil || r0.Type() != variants.Integer || r0.AsInteger() != -999 {
+				fail = "evaluated against a function collection of the caller that defines " + strings.ToLower(name) + ", the call did not reach the caller's function"
+			}
 			r2, e2 := calc.EvaluateUsingVariables(vars)
 			if ok, why := sameResult(res, err, r2, e2); !ok {
 				fail = "called through an expression the result differs: " + why
